@@ -583,3 +583,44 @@ def c15(run):
     run.add_samples(oks[:2])
     run.assumptions = [SYMBOLIC, '"known" subpacket ids are the ones the library itself classifies as known after a parse (public API); the rule tested is about the unknown ones']
     run.notes['trusted_base'] = TRUSTED
+
+
+# ---------------------------------------------------------------------------
+# C08  secret-key locking
+
+def keylock_cfg(ver, steps, spec='Spec', invs='RightPasswordIffIntact WrongPasswordNeverUnlocks V6Restrictions ArgonOnlyAead'):
+    return f"CONSTANTS\n  KeyVersion = {ver}\n  MaxSteps = {steps}\nSPECIFICATION {spec}\nINVARIANTS {invs}\nCHECK_DEADLOCK FALSE\n"
+
+
+@prop('C08', 'model_checking')
+def c08(run):
+    for v in (4, 6):
+        run.mc('KeyLock', keylock_cfg(v, run.q(6, 8)), name=f'mc_v{v}')
+    cases = []
+    steps = run.q(3, 4)
+    for v in (4, 6):
+        g = run.mc('MCKeyLock', keylock_cfg(v, steps, spec='HSpec', invs='GenPath'), name=f'gen_v{v}', workers=4, count=False, timeout=1500)
+        cases += g.cases
+    run.notes['paths_in_bound'] = len(cases)
+    if run.tier == 'thorough' and len(cases) > 60000:
+        rnd = random.Random(run.seed)
+        cases = [c for c in cases if rnd.random() < 60000 / len(cases)]
+    if run.replay and run.replay.get('source_case'):
+        cases = [run.replay['source_case']]
+    for i, c in enumerate(cases):
+        c['ci'] = i
+    body, summary, oks = run.harness('c08', cases, timeout=3300)
+    run.distinct_nontrivial = summary['extra']['nontrivial']
+    run.traces_validated = summary['evaluations']
+    run.exhaustive = run.tier != 'thorough'
+    run.rule = (f'KeyLock.tla (abstract state: usage octet, S2K kind, password, integrity of blob / S2K-IV / public fields; actions set_password_with_s2k, '
+                f'remove_password, unlock, wire round trip, from_wire with usage 253/254/255/legacy cipher octet, tamper blob|s2k|public) is '
+                f'model-checked over all histories of 6 (thorough 8) actions for v4 and v6; TLC emits every history of {steps} actions with the '
+                'predicted verdict and usage octet after each step. Each is replayed on real SecretKey and SecretSubkey packets (Ed25519 legacy + '
+                'Cv25519 ECDH, Ed25519 + X25519; thorough also ECDSA/ECDH P-256, Ed448/X448, RSA) with rotating passwords (ASCII, empty, non-UTF-8, '
+                '300 octets), S2K parameters (iterated counts 0/16/96/131, salted, Argon2 p=1..2), ciphers and AEAD modes; usage 255 and legacy '
+                'packets come from an independent encoder; unlocked material is compared with the original. non-trivial = replayed (path, key) pairs')
+    run.add_samples(cases[2000:2002])
+    run.add_samples(oks[:2])
+    run.assumptions = [SYMBOLIC, 'the 16-bit checksum of usage 255 / legacy protection is treated as an integrity check (a wrong password passes it with probability 2^-16)']
+    run.notes['trusted_base'] = TRUSTED
